@@ -24,7 +24,7 @@ CHECKS = {
    note="Trusted: x/arch decoders as the independent reference (copied under third_party/xarch), the GNU-syntax normalisations listed in the harness (AM* operand order, alsl sa2+1, ldptr/stptr byte offsets), the hand-written pseudo-instruction base table, go/ssa, the executor (validated per run by native replay of path models), z3 5.1.0. fmt.Errorf/Sprintf are opaque stubs. Known findings (F/D extension of the RISC-V table, LoongArch relaxed signed immediates, fence reserved fields, addu16i.d) are listed per mnemonic and label in known_findings.txt."),
  "C24": dict(engine=E1, category="model_checking", design="DESIGN.md#C24",
    technique="bounded symbolic execution of the real Go parser/evaluator/printer (go/ssa -> SMT bit-vectors) on symbolic constraint text and a symbolic tag truth table; z3 decides equivalence with a reference Boolean evaluator per path; counterexamples replayed natively",
-   text="buildtag.Parse (splitWaBuild, parseExpr, or/and/not/atom, lex), Expr.Eval and Expr.String run symbolically on '#wa:build ' followed by every string of up to 4 (quick) / 6 (thorough) bytes over the alphabet {space ( ) ! & | a b c}, with the tag assignment a symbolic 16-bit truth table: the parser accepts iff an independent precedence-climbing reference accepts, Eval equals the reference value for every assignment, and the printed form parses again to an equivalent expression. A second harness feeds up to 2 (quick) / 3 (thorough) completely arbitrary bytes (no panic; accept iff well-formed for ASCII), a third decides IsWaBuild's prefix rule. Right level: a small recursive-descent parser whose interesting inputs (precedence, parentheses, '!!', dangling operators) all occur within a few bytes.",
+   text="buildtag.Parse (splitWaBuild, parseExpr, or/and/not/atom, lex), Expr.Eval and Expr.String run symbolically on '#wa:build ' followed by every string of up to 4 (quick) / 5 (thorough) bytes over the alphabet {space ( ) ! & | a b c}, with the tag assignment a symbolic 16-bit truth table: the parser accepts iff an independent precedence-climbing reference accepts, Eval equals the reference value for every assignment, and the printed form parses again to an equivalent expression. A second harness feeds up to 2 (quick) / 3 (thorough) completely arbitrary bytes (no panic; accept iff well-formed for ASCII), a third decides IsWaBuild's prefix rule. Right level: a small recursive-descent parser whose interesting inputs (precedence, parentheses, '!!', dangling operators) all occur within a few bytes.",
    note="Trusted: the reference evaluator in the harness, go/ssa, the executor (validated per run by native replay of path models), z3 5.1.0. The tag truth table is indexed by a hash of the tag text (tags with equal hash share a value on both sides). Longer lines, the loader's file selection (isSkipedAstFile, directory walk) and non-ASCII tag letters beyond 3 bytes are outside the bound."),
  "C25": dict(engine=E1, category="model_checking", design="DESIGN.md#C25",
    technique="bounded symbolic execution of the real Go writer/reader (go/ssa -> SMT bit-vectors, real bytes.Buffer code) over symbolic payload bytes and a symbolic stall position of the transport; z3 decides every path's delivery assertion; counterexamples replayed natively",
@@ -34,6 +34,10 @@ CHECKS = {
    technique="bounded symbolic execution of one emulator step (real decoder, real bus, real execInst; go/ssa -> SMT bit-vectors) from a fully symbolic machine state, compared by z3 with reference ISA semantics written in the harness; counterexamples replayed natively",
    text="(*riscv64.CPU).StepRun and (*riscv32.CPU).StepRun, with the real riscv.DecodeEx and device.Bus, run symbolically for one step from an arbitrary machine state: all 32 integer registers, PC, two FP register bit patterns, the loaded memory word and the instruction word (constrained to one mnemonic's spec pattern, register and immediate bits free) are symbolic. For each of the 63 RV32I/RV64I/M mnemonics, on every path where the emulator reports success, the integer registers as subsequently read, the PC, the load address/size, the memory write (address, size, value) and the FP registers equal the reference semantics written from the RISC-V unprivileged specification. One query per assertion and path covers all 2^(32*64+...) states.",
    note="Trusted: the reference semantics and instruction patterns in the harness (from the spec listing, independent of Wa's table), go/ssa, the executor (validated per run by native replay of path models), z3 5.1.0. riscv.AsmSyntax/AsString (error formatting) are opaque stubs. MULH/MULHSU/MULHU (reported unsupported by the emulator), CSR/privileged/atomic/FP instructions, devices other than RAM and multi-step behaviour are outside. The LoongArch64 emulator (wemu/loong64) gets the same treatment for the 27 instructions it implements (add.w/d, sub.w/d, and, or, slt, slli/srli/srai.w, addi.w, ori, lu12i.w, pcaddu12i, ld.bu/d, st.b/w/d, beq, bne, blt, b, bl, fadd.s, fmul.d, fsub.d; opcode patterns from the encoder table that C17 validates against x/arch, semantics from the LoongArch reference manual), plus 8 unimplemented ones that must stay unsupported."),
+ "C23": dict(engine=E1, category="model_checking", design="DESIGN.md#C23",
+   technique="bounded symbolic execution of the real Go position code (go/ssa -> SMT bit-vectors) on symbolic file contents, offsets and Pos values; z3 decides each assertion against a newline-counting oracle; counterexamples replayed natively",
+   text="token.FileSet.AddFile, File.SetLinesForContent / AddLine, File.Pos/Offset/Line/LineStart, FileSet.Position/PositionFor/File (searchFiles, searchInts, unpack) run symbolically for two files of 0..4 and 0..2 fully symbolic bytes and a symbolic offset in either file: file name, offset, line and column equal the values obtained by counting newlines and bytes. FileSet.Write into an in-memory serializedFileSet and FileSet.Read into a fresh FileSet: every Pos value in [0, Base+1] (symbolic) maps to the same Position, adjusted and unadjusted, and Base is preserved.",
+   note="Trusted: the counting oracle in the harness, go/ssa, the executor (validated per run by native replay of path models), z3 5.1.0; mutexes are no-ops. Outside the claim: the JSON text itself (encoding/json is reflection-based and not modelled), //line directives (AddLineInfo), files longer than 4 bytes, and positions in run-time panic messages of compiled programs (whole-compiler path). Two go/token conventions are listed as known findings (empty file, end position after a final newline)."),
  # ---CHECKS-END---
 }
 NA = {
